@@ -25,8 +25,13 @@ def sh(cmd, cwd, timeout=3600, isolate=False):
         # private network namespace: listener tests bind fixed ports and
         # collide with suites running in other worktrees otherwise
         cmd = "unshare -n sh -c 'ip link set lo up; %s'" % cmd
+    env = dict(os.environ)
+    # the DTD-validating tests call xmllint, which lives in the conda base
+    # environment that is not on every shell's PATH
+    if '/root/miniconda/bin' not in env.get('PATH', ''):
+        env['PATH'] = env.get('PATH', '') + ':/root/miniconda/bin'
     p = subprocess.run(cmd, cwd=cwd, shell=True, stdout=subprocess.PIPE,
-                       stderr=subprocess.STDOUT, timeout=timeout)
+                       stderr=subprocess.STDOUT, timeout=timeout, env=env)
     return p.returncode, p.stdout.decode('utf-8', 'replace')
 
 
